@@ -736,6 +736,8 @@ KINDS['h_ed'] = replay_h_ed
 def _join_pairs(cs):
     L, R = scenario.real_frames(cs)
     out = scenario.call_entry(cs, L, R, scenario.real_tokenizer(cs))
+    if len(out) == 0:
+        return {}, out
     return dict(((int(a), int(b)), s) for a, b, s in zip(out.iloc[:, 1], out.iloc[:, 2], out['_sim_score'])), out
 
 
@@ -834,7 +836,8 @@ def replay_h_pipe(detail):
         M = ssj.apply_matcher(cand, 'l_id', 'r_id', L, R, 'id', 'id', 'attr', 'attr', tok,
                               h_laws.raw_sim_function(s['measure']), s['threshold'], s['comp_op'],
                               n_jobs=detail['n_jobs2'], show_progress=False)
-        P = dict(((int(a), int(b)), sc) for a, b, sc in zip(M['l_id'], M['r_id'], M['_sim_score']))
+        # apply_matcher hands an empty candidate set back unchanged (no score column)
+        P = {} if len(M) == 0 else dict(((int(a), int(b)), sc) for a, b, sc in zip(M['l_id'], M['r_id'], M['_sim_score']))
         lines += ['join:\n%s' % oj.to_string(), '%s.filter_tables + apply_matcher:\n%s' % (first, M.to_string())]
         rounded = s['measure'] in ('JACCARD', 'COSINE', 'DICE')
         for lk in [r[s['L']['columns'].index('id')] for r in s['L']['rows']]:
